@@ -4,6 +4,7 @@ package main
 
 import (
 	"fmt"
+	"go/token"
 	"go/types"
 	"strings"
 
@@ -14,7 +15,7 @@ func init() {
 	property("C17",
 		"Static determinism and independence: (a) every range over a map only fills a set/map or a slice that is sorted before any other use; (b) no function outside package initialisation writes a package-level variable or a map/slice held in one (no state survives a compilation); (c) library code contains no goroutine, channel operation, select, or call into time / math/rand / crypto/rand / environment lookups, and reads files only in LoadFontConfig and main; (d) Emitter fields are written only by New, no emitter function updates a map it did not create itself (the text-label set is filled only in Emit), and the Parser fields written while parsing are exactly the token window, the scope stacks, the font cache, the constant table and the hoisting tables the property allows.",
 		[]string{"determinism of the Go runtime and of the standard-library functions used (fmt, strings, sort, strconv, regexp, encoding/json)", "go/ssa lowering is faithful to the source"},
-		"C17.a", "C17.b", "C17.c", "C17.d")
+		"C17.a", "C17.b", "C17.c", "C17.d", "C20.a")
 
 	register(&Rule{ID: "C17.a", Doc: "map iteration is order-insensitive (fills a set, or a slice sorted before use)", Floor: 4, Run: c17a})
 	register(&Rule{ID: "C17.b", Doc: "no package-level state is written outside init", Floor: 1, Run: c17b})
@@ -215,6 +216,68 @@ func c17b(c *Ctx) {
 			}
 		})
 	}
+	// a package-level variable that holds a reference (map, slice, pointer, directly or in a
+	// field) must not leak it: whoever obtains a copy of the reference could write through it
+	// (`cfg := defaultCfg` shares defaultCfg's map). Loads of such variables may only be looked
+	// up, indexed, ranged over, measured, compared or passed to functions that do not write
+	// through or retain their arguments.
+	nRefUses := 0
+	for _, fn := range c.W.Funcs {
+		if isTestFunc(c.W, fn) {
+			continue
+		}
+		fk := c.W.FuncKey(fn)
+		isInit := fn.Name() == "init" || strings.HasPrefix(fn.Name(), "init#")
+		instrs(fn, func(in ssa.Instruction) {
+			u, ok := in.(*ssa.UnOp)
+			if !ok || u.Op != token.MUL {
+				return
+			}
+			g := globalOrigin(u.X)
+			if g == nil || g.Pkg == nil || !c.W.InRepoPkg(g.Pkg.Pkg) || !holdsReference(u.Type(), 0) {
+				return
+			}
+			refs := u.Referrers()
+			if refs == nil {
+				return
+			}
+			for _, r := range *refs {
+				nRefUses++
+				okUse := false
+				switch y := r.(type) {
+				case *ssa.Lookup, *ssa.Index, *ssa.Range, *ssa.DebugRef, *ssa.BinOp, *ssa.IndexAddr, *ssa.Field:
+					okUse = true
+				case *ssa.FieldAddr:
+					okUse = true
+				case *ssa.Slice:
+					okUse = false
+				case *ssa.MapUpdate:
+					okUse = isInit && y.Map == ssa.Value(u)
+				case ssa.CallInstruction:
+					n := calleeName(y)
+					if n == "builtin:len" || n == "builtin:cap" || pureStd[n] || readerStd[n] {
+						okUse = true
+					} else if f := callee(y); f != nil && c.W.InRepo(f) && c.T(fn).purity(f) >= purReadOnly && !holdsReference(f.Signature.Results(), 0) {
+						okUse = true
+					} else if y.Common().IsInvoke() && strings.HasSuffix(n, ".Error") {
+						okUse = true
+					}
+					// (*regexp.Regexp) methods and the like: the receiver is used, not modified
+					if !okUse && y.Common().Signature().Recv() != nil && len(y.Common().Args) > 0 && y.Common().Args[0] == ssa.Value(u) && !c.W.InRepo(callee(y)) && callee(y) != nil {
+						okUse = stdReceiverReadOnly(n)
+					}
+				}
+				if isInit {
+					okUse = true
+				}
+				if !okUse {
+					c.Bad(fk+"/global-reference-escapes["+g.Name()+"]", c.W.Pos(r.Pos()), "the reference held in package-level variable "+g.Name()+" is copied out ("+fmt.Sprintf("%T", r)+"): data written through the copy would be shared by every later compilation in the process")
+					n++
+				}
+			}
+		})
+	}
+	c.OK("global-references/scanned", "-", fmt.Sprintf("%d uses of reference-holding package-level variables, all read-only", nRefUses))
 	// evidence that the rule looks at something: count globals
 	ng := 0
 	for _, p := range c.W.SSA {
@@ -429,4 +492,36 @@ func localMap(v ssa.Value, fn *ssa.Function) bool {
 		}
 	}
 	return false
+}
+
+// holdsReference: a value of type t contains a map, slice, pointer, channel, function or
+// interface (directly or inside struct / array fields).
+func holdsReference(t types.Type, depth int) bool {
+	if depth > 6 {
+		return true
+	}
+	switch x := t.Underlying().(type) {
+	case *types.Map, *types.Slice, *types.Pointer, *types.Chan, *types.Signature, *types.Interface:
+		return true
+	case *types.Struct:
+		for i := 0; i < x.NumFields(); i++ {
+			if holdsReference(x.Field(i).Type(), depth+1) {
+				return true
+			}
+		}
+	case *types.Array:
+		return holdsReference(x.Elem(), depth+1)
+	case *types.Tuple:
+		for i := 0; i < x.Len(); i++ {
+			if holdsReference(x.At(i).Type(), depth+1) {
+				return true
+			}
+		}
+	}
+	return false
+}
+
+// stdReceiverReadOnly: methods of library types that read their receiver only.
+func stdReceiverReadOnly(n string) bool {
+	return strings.HasPrefix(n, "(*regexp.Regexp).") || strings.HasPrefix(n, "(*strings.Replacer).")
 }
